@@ -372,6 +372,10 @@ def shard_generated(acc, shard, nshards, n_pair, n_sub, n_reg, max_a, max_b):
     engine.hyp_run(acc, "regions", check_regions, region_cases(), n_reg, shard)
 
 
+# coverage-guided variants of the structured generators (thorough tier, pv/fuzz/target.py hyp:<name>)
+FUZZ = {"pair": ("pair", lambda: pair_cases(3, 4)), "sub": ("sub", lambda: sub_cases(4))}
+
+
 def run(acc, tier):
     if tier == "quick":
         engine.pmap(acc, shard_exhaustive, extra=(False,))
@@ -379,3 +383,4 @@ def run(acc, tier):
     else:
         engine.pmap(acc, shard_exhaustive, extra=(True,))
         engine.pmap(acc, shard_generated, extra=(1500, 1000, 1000, 3, 4))
+        engine.fuzz(acc, "hyp:pair", CHECKS, 3000, max_len=2048)
